@@ -11,8 +11,8 @@ from .common import viol
 PROP = "C19"
 LEVEL = "fault_enumeration"
 RULE = ("one run = one stage (walk, leaf visit, transform, real u8_to_rgb, multi-TAN, multi-WCS) x generated item set x "
-        "worker count x exactly one injected failure (the callback raises at the k-th started item, or the tile I/O seam "
-        "raises OSError(EIO) inside a worker) x one complete schedule from the seeded choice sequence; after the injection "
+        "worker count x exactly one injected failure (the callback raises - a generic Exception, OSError, FileNotFoundError, "
+        "ValueError, KeyError or EOFError - at the k-th started item, or the tile I/O seam raises OSError(EIO) inside a worker) x one complete schedule from the seeded choice sequence; after the injection "
         "no further early timeouts are injected and scheduling is fair; non-trivial = a failure was injected in a parallel "
         "mode; distinct = distinct sha1 of the scheduler trace")
 COMPONENTS = {
@@ -109,7 +109,9 @@ def run_one(ch, env):
         return res
     io_mode = needs_dir and getattr(stage, "io_faults", True) and ch.draw(2, kind="fault_kind") == 1
     k = ch.draw(n_items, kind="fail_at")
-    res["config"].update(fail_at=k, fault="io" if io_mode else "callback")
+    err = stages.ERROR_KINDS[ch.draw(len(stages.ERROR_KINDS), kind="error_kind")]
+    res["config"].update(fail_at=k, fault="io" if io_mode else "callback", error=err.__name__)
+    res["extra"]["error_" + err.__name__] = 1
 
     # serial control: must raise
     d = None
@@ -117,7 +119,7 @@ def run_one(ch, env):
         d = env.fresh_dir()
         stage.populate(d)
     if not io_mode:
-        rec = stages.Recorder(None, fail_at=k)
+        rec = stages.Recorder(None, fail_at=k, error_cls=err)
         rec.serial = []
         try:
             stage.run(1, rec, d)
@@ -143,7 +145,7 @@ def run_one(ch, env):
         rec = stages.Recorder(sim, nyield)
         sim.io_fault = IoFault(sim, k)
     else:
-        rec = stages.Recorder(sim, nyield, fail_at=k)
+        rec = stages.Recorder(sim, nyield, fail_at=k, error_cls=err)
 
     def main():
         stage.run(workers, rec, d)
